@@ -45,6 +45,24 @@ def strat1d(tier):
     return _models().flatmap(cfg)
 
 
+def strat1d_large(tier):
+    """a few LARGE periodic problems stepped once or twice (implicit integrators: systems of 2000-3100 unknowns), all models"""
+    ex, im = cases.integrator_names()
+    sizes = {1: [700, 2100, 3000], 2: [300, 1025, 1500], 3: [129, 700, 1000]}
+
+    def cfg(md):
+        fmd = md if md["name"] != "nozzle" else dict(name="euler1d")
+        neq = cases.model_neq(md)
+        lin = md["name"] == "convection"
+        explicit = st.builds(lambda i, c: (i, c, 2), st.sampled_from(ex), gen.f(0.05, 0.6))
+        implicit = st.builds(lambda i, c: (i, c, 1), st.sampled_from(im), gen.logf(-1, 1.5) if lin else gen.f(0.05, 2.0))
+        return st.builds(lambda n, L, num, s_s, fl, ic, k: dict(model=md, mesh=dict(kind="uni", n=n, length=L, x0=0.0), num=num, state=s_s, flux=fl, integ=ic[0], cfl=ic[1], nsteps=ic[2],
+                                                                 shift=k, dtlocal=False, large_solve=True),
+                         st.sampled_from(sizes[neq]), gen.logf(-1, 1), st.one_of(gen.num_first(), gen.num_any()), gen.state_for(md, False, lnrange=0.7, machmax=1.2, smooth_amp=0.05),
+                         st.sampled_from(cases.flux_names(fmd)), st.one_of(explicit, implicit, implicit), st.integers(-2000, 2000))
+    return _models().flatmap(cfg)
+
+
 def _roll(data, k):
     return [np.roll(np.asarray(d, dtype=float), k, axis=-1) for d in data]
 
@@ -85,7 +103,8 @@ def check1d(case):
     implicit = cases.is_implicit(case["integ"])
     labels = ["model:" + md["name"], "integ:" + case["integ"], "num:" + case["num"].get("limiter", case["num"]["name"]), "n:%s" % (n if n <= 3 else ">3"), "steps:%d" % min(case["nsteps"], 2)]
     nt = (k % n != 0) and any(not np.array_equal(a, b) for a, b in zip(qA, qB))
-    if case["nsteps"] == 0 or n > 100:          # large meshes: operator only
+    large = bool(case.get("large_solve"))
+    if case["nsteps"] == 0 or (n > 100 and not large):          # large meshes: operator only, except in the dedicated sub-check
         return dict(nontrivial=nt, labels=labels + (["big"] if n > 100 else []))
     qsc, _a = sim.state_scales(P.smd, P.prim)
     mk = lambda: cases.build_integrator(case["integ"], P.mesh, P.disc)
@@ -117,6 +136,8 @@ def check1d(case):
         require(e <= tol, "solve-shift", "variable %d: stepping roll(q0,%d) %d times differs from roll of the unshifted run by %.3g (relative; tol %.3g; %s, cfl=%g, %s/%s, %s, n=%d)"
                 % (i, k, case["nsteps"], e, tol, case["integ"], case["cfl"], md["name"], case["flux"], case["num"].get("limiter", case["num"]["name"]), n))
     require(abs(gA.time - gB.time) <= 10 * tol * abs(gA.time), "solve-shift-time", "shifted run ends at time %r, unshifted at %r" % (gB.time, gA.time))
+    if large:
+        return dict(nontrivial=nt, labels=labels + ["implicit" if implicit else "explicit", "unknowns>=2000" if n * len(qA) >= 2000 else "unknowns<2000"])
     # and through solve() itself
     rA_ = mk().solve(fA, case["cfl"], stop={"maxit": case["nsteps"]}, directives=directives)[-1]
     rB_ = mk().solve(fB, case["cfl"], stop={"maxit": case["nsteps"]}, directives=directives)[-1]
@@ -206,6 +227,7 @@ def check2d(case):
 
 SUBCHECKS = [
     SubCheck("shift1d", check1d, strategy=strat1d, examples={"quick": 300, "thorough": 2000}, shards={"quick": 6, "thorough": 16}),
+    SubCheck("shift1d_large", check1d, strategy=strat1d_large, examples={"quick": 4, "thorough": 8}, shards={"quick": 5, "thorough": 12}),
     SubCheck("shift2d", check2d, strategy=strat2d, examples={"quick": 150, "thorough": 1000}, shards={"quick": 4, "thorough": 16}),
 ]
 
